@@ -156,7 +156,7 @@ def run(ck):
         ck.mc("Keywording_MC", cfg_text=mc_cfg(not ck.quick), workers=ck.pick(4, 8), timeout=ck.pick(300, 3000),
               label=f"MC:Keywording_MC Rich={not ck.quick}")
     # 2. spec -> code
-    cases = ck.export("Keywording_Export", cfg_text=f"CONSTANT Rich = {'TRUE' if not ck.quick else 'FALSE'}\n", timeout=1200,
+    cases = ck.export("Keywording_Export", cfg_text=f"CONSTANT Rich = {'TRUE' if not ck.quick else 'FALSE'}\n", timeout=2400,
                       heap="4g")
     ck.exhaustive = False
     events = []
@@ -170,7 +170,7 @@ def run(ck):
     ck.sample({k: v for k, v in pretty(s).items() if k != "case"})
     # 3. code -> spec
     r = rng(40)
-    for _ in range(ck.pick(2500, 60000)):
+    for _ in range(ck.pick(2500, 20000)):
         case = rnd_case(r)
         ev = real.observe(len(events), case)
         events.append(ev)
